@@ -13,7 +13,7 @@ RULE = ("Every chain m0 -> m1 -> ... of length 0..L whose elements are synthetic
         "setting one of {nothing, description, children, inner_stack, all three, obj := plain object}, the last element's unwrap "
         "returning one of {None, PRUNE, itself (cycle), the first element (cycle)}; x {not exiting, exiting} x {bare "
         "fill_context, inside extract() of a frame suspended in the with body, inside extract() of a frame suspended in "
-        "__aexit__}; plus straight chains of 99 and 101 steps. Reference: the documented loop; compared: the hook call log "
+        "__aexit__, and inside extract() of a frame that holds sibling contexts outward/inward of it of which one unwraps to itself forever (its own fill fails; every other context of the frame must still go through the whole loop, and each failure is reported)}; plus straight chains of 99 and 101 steps. Reference: the documented loop; compared: the hook call log "
         "(elab(m0), unwrap(m0), elab(m1), ...), final obj / hide / description / children / inner_stack, and error iff > 100 "
         "steps. state = (position in chain, context fields); transition = one hook call; every trace is replayed on the "
         "implementation.")
@@ -307,6 +307,74 @@ def run_bare(case, exiting):
         teardown()
 
 
+def run_with_siblings(case, exiting, sibs):
+    """`for every context`: the frame holds other contexts besides m0's - an outer sibling `so` and (unless m0 is exiting) an
+    inner sibling `si`, each either steady ('ok') or unwrapping to itself forever ('cyc': its fill_context fails).
+    Whatever happens to one context, every other context of the frame goes through the full loop.
+    Returns a list of problems."""
+    w = world()
+    m0 = setup(case)
+    T = w["T"]
+    ref = reference(case, exiting)
+    so_kind, si_kind = sibs
+    try:
+        so = T["objs"]["so"] = w["W"]("so")
+        T["table"]["so"] = {"unwrap": ("so" if so_kind == "cyc" else None), "elab": "desc"}
+        si = None
+        if si_kind is not None:
+            si = T["objs"]["si"] = w["W"]("si")
+            T["table"]["si"] = {"unwrap": ("si" if si_kind == "cyc" else None), "elab": "desc"}
+
+        async def target():
+            with so:
+                async with m0:
+                    if not exiting:
+                        with si:
+                            await trap()
+        co = target()
+        co.send(None)
+        T["log"] = []
+        with warnings.catch_warnings():
+            warnings.simplefilter("ignore")
+            st = w["stackscope"].extract(co)
+        log = list(T["log"])
+        try:
+            while True:
+                co.send(None)
+        except StopIteration:
+            pass
+        what = "siblings(%s,%s)/exiting=%r" % (so_kind, si_kind, exiting)
+        problems = []
+        cs_ = st.frames[0].contexts
+        want = 3 if si is not None else 2
+        if len(cs_) != want or cs_[0].obj is not so or cs_[1].is_exiting != exiting:
+            return ["%s: harness: contexts %r" % (what, cs_)]
+
+        def sib_log(nm, kind):
+            if kind == "cyc":
+                return [("elab", nm), ("unwrap", nm)] * 100 + [("unwrap", nm)]
+            return [("elab", nm), ("unwrap", nm)]
+        chain_log = [e for e in log if e[1] not in ("so", "si")]
+        exp_log = sib_log("so", so_kind) + (ref["log"] if not ref["error"] else chain_log) + (sib_log("si", si_kind) if si is not None else [])
+        if log != exp_log:
+            problems.append("%s: hook call log differs: got %d calls %r..., expected %d %r..." % (
+                what, len(log), [e for e in log if e[1] in ("so", "si")][-3:], len(exp_log), exp_log[-3:]))
+        nerr = (so_kind == "cyc") + bool(ref["error"]) + (si_kind == "cyc")
+        got_errs = []
+        if st.error is not None:
+            got_errs = list(st.error.exceptions) if hasattr(st.error, "exceptions") else [st.error]
+        if len(got_errs) != nerr:
+            problems.append("%s: %d errors reported (%r), expected %d" % (what, len(got_errs), st.error, nerr))
+        got = summarize(cs_[1], ref["error"])
+        problems += compare(ref, got, chain_log, what)
+        for c, nm in ((cs_[0], "so"), (cs_[2] if si is not None else None, "si")):
+            if c is not None and c.description != "desc-" + nm:
+                problems.append("%s: sibling context %s was not elaborated (description %r)" % (what, nm, c.description))
+        return problems
+    finally:
+        teardown()
+
+
 def run_in_extract(case, exiting):
     """Suspend a coroutine inside `async with m0:` (body or __aexit__) and extract it. m0 must be a W."""
     w = world()
@@ -379,6 +447,8 @@ def check_case(case):
                     for k in ("obj", "hide", "desc", "children", "inner"):
                         if got[k] != got2[k]:
                             problems.append("bare fill_context and extract() disagree on %s: %r vs %r" % (k, got[k], got2[k]))
+            for sibs in ((("cyc", None),) if exiting else (("cyc", "ok"), ("ok", "cyc"))):
+                problems += run_with_siblings(case, exiting, sibs)
     return problems, stats
 
 
